@@ -94,7 +94,9 @@ Declare(s, nm, v, ty) == IF nm = "_" \/ nm = "" THEN s
 \* assign to the innermost binding of nm
 Update(s, nm, v) == LET i == FindScope(s.env, nm, Len(s.env))
                     IN IF nm = "_" THEN s
-                       ELSE IF i = 0 THEN Stuck(s)
+                       \* a global whose declaration has not been executed yet (assignment in a function that
+                       \* is called too early): the same run-time panic as reading it
+                       ELSE IF i = 0 THEN Panic(s, "varnotset")
                        ELSE [s EXCEPT !.env[i] = Bind(s.env[i], nm, v)]
 
 PushScope(s) == [s EXCEPT !.env = Append(s.env, <<>>), !.tenv = Append(s.tenv, <<>>)]
